@@ -38,14 +38,18 @@ def run(ctx):
         "the model driver evaluates the Boolean form of WF on every heap of every history without clone and prints an "
         "alarm (a mismatch) if it fails",
         "Appendix B: when err is nil the first non-nil *Error argument is adopted as the accumulator (and mutated)",
+        "reading of 'the errors contained in its arguments': each argument is read as the value it has at the time "
+        "Append consumes it — an argument that aliases the accumulator (Append(a, b, a)) is read after the accumulator "
+        "has grown and contributes a, b; this is the content law append_items_alias (proved), not a violation",
     ]
     ctx.extra["observations"] = [
         "Appendix B: Append(nil, a, b) returns a itself (a is mutated; Count 2) — tag `adopts-argument` in tag_histogram "
         "counts the generated calls where this happened; not alarmed on",
         "aliased call: Append(a, b, a) contains a, b, a, b (Count 4): the second a is read after a has grown; model and "
         "implementation agree; outside append_items (hypothesis NoAlias); proved as append_items_alias",
-        "NewWithCause(msg, (*Error)(nil)): StackTrace/Detail/Error() dereference the typed-nil cause and panic; the "
-        "harness avoids rendering such errors (causeSafe) — reported to the coordinator",
+        "fixed (f303e30): NewWithCause(msg, typed nil) kept the typed-nil cause and rendering panicked; the model drops "
+        "it (newWithCause_cause), the stateful area renders such errors (`render` op, corpus + generated) and the fmt "
+        "oracle renders them with every verb",
     ]
     ctx.lean(props=["Props.C11"], drivers=["drv_c11"])
     ctx.harness("./cmd/c11")
